@@ -132,6 +132,7 @@ namespace {
         u64 pct_low = 0;
         size_t guided_pos = 0;
         u64 pauses = 0;
+        i64 wall_offset = 0;   // what the wall clock (system_clock) is ahead of / behind the monotonic clock by: stepped by the "clock_step" fault
         std::vector<int> choices;
         bool firing = false;
     };
@@ -575,6 +576,14 @@ void sleep_ns(i64 ns)
 }
 
 i64 now_ns() { return g.now; }
+i64 wall_offset_ns() { return g.wall_offset; }
+void step_wall_clock(i64 delta_ns)
+{
+    IgnoreScope ig;
+    g.wall_offset += delta_ns;
+    g_rec.fault("clock_step");
+    if (g_verbose) logf("wall clock stepped by %lld ms", static_cast<long long>(delta_ns / 1000000));
+}
 
 u64 schedule_at(i64 t_ns, std::function<void()> fn, const char* tag)
 {
@@ -906,6 +915,7 @@ int __wrap_pthread_cond_clockwait(pthread_cond_t* c, pthread_mutex_t* m, clockid
 {
     if (!sim::in_sim()) return __real_pthread_cond_clockwait(c, m, clk, abst);
     sim::i64 abs_ns = static_cast<sim::i64>(abst->tv_sec) * 1000000000LL + abst->tv_nsec - kClockBase;
+    if (clk == CLOCK_REALTIME) abs_ns -= sim::wall_offset_ns();
     sim::i64 before = sim::now_ns();
     cv_wait_common(c, m, abs_ns < before ? before : abs_ns);
     return sim::now_ns() >= abs_ns ? ETIMEDOUT : 0;
@@ -928,7 +938,7 @@ sim::i64 __real__ZNSt6chrono3_V212system_clock3nowEv();
 sim::i64 __wrap__ZNSt6chrono3_V212system_clock3nowEv()
 {
     if (!sim::in_sim()) return __real__ZNSt6chrono3_V212system_clock3nowEv();
-    return kClockBase + sim::now_ns();
+    return kClockBase + sim::now_ns() + sim::wall_offset_ns(); // the wall clock may be stepped (fault "clock_step"); the monotonic clock never is
 }
 
 int __real_nanosleep(const struct timespec* req, struct timespec* rem);
